@@ -299,6 +299,9 @@ class Executor:
         self.modifies_terms = [m[0] if isinstance(m, tuple) else m for m in (c.modifies(self.ctx) if hasattr(c, "modifies") else [])]
         for r in c.requires(self.ctx):
             st.assume(r)
+        # valid axiom instances (e.g. finite-set cardinality) the proof needs; reported as assumptions
+        for lm in (c.lemmas(self.ctx) if hasattr(c, "lemmas") else []):
+            st.assume(lm)
         self.entry_pc = list(st.pc)
         outs = self.exec_block(fn.body, st)
         for o in outs:
@@ -697,6 +700,8 @@ class Executor:
             raise Unsupported(f"loop inside an inlined callee at {self.where(node)}")
         ordinal = self._loop_ids[id(owner)][id(node)]
         spec = getattr(self.contract, "loops", {}).get(ordinal)
+        if isinstance(spec, str):
+            spec = getattr(self.contract, spec)
         if spec is None:
             raise SidecarError(f"no invariant for loop #{ordinal} at {self.where(node)} of {self.contract.target}")
         outs: List[Outcome] = []
@@ -1284,8 +1289,39 @@ class Executor:
             outs.append((s, "val", sv_val(o)))
         return outs
 
+    def _keys_base(self, node):
+        if isinstance(node, ast.Call) and isinstance(node.func, ast.Attribute) and node.func.attr == "keys" and not node.args:
+            return node.func.value
+        return None
+
     def expr_BinOp(self, node, st):
         outs = []
+        if isinstance(node.op, (ast.Sub, ast.BitAnd, ast.BitOr)) and (self._keys_base(node.left) is not None or self._keys_base(node.right) is not None):
+            # d.keys() - s, s & d.keys(), s | d.keys(): a fresh set defined by membership
+            lnode = self._keys_base(node.left) or node.left
+            rnode = self._keys_base(node.right) or node.right
+            for s, k, vs in self.eval_many([lnode, rnode], st):
+                if k == "exc":
+                    outs.append((s, k, vs))
+                    continue
+                l, r = as_val(vs[0]), as_val(vs[1])
+                h = Heap(self, s)
+                for t, nd in ((l, lnode), (r, rnode)):
+                    okc = z3.Or(isinst(t, "dict"), isinst(t, "set"), isinst(t, "frozenset"))
+                    bad = s.fork().assume(z3.Not(okc))
+                    if self.feasible(bad):
+                        outs.append((bad, "exc", self.new_obj(bad, K("TypeError"), "exc")))
+                    s.assume(okc)
+                new_has = self.fresh("setop", T.ArrVB)
+                kk = z3.Const("kk", Val)
+                lh, rh = h.arr("dhas")[l], h.arr("dhas")[r]
+                body = {ast.Sub: z3.And(lh[kk], z3.Not(rh[kk])), ast.BitAnd: z3.And(lh[kk], rh[kk]), ast.BitOr: z3.Or(lh[kk], rh[kk])}[type(node.op)]
+                s.assume(T.forall([kk], new_has[kk] == body, patterns=[new_has[kk]]))
+                n = self.fresh("setlen", T.I)
+                s.assume(n >= 0, (n == 0) == z3.Not(z3.Exists([kk], new_has[kk])))
+                o = self.new_dict(s, new_has, T.NOGET, n, K("set"), "set")
+                outs.append((s, "val", sv_val(o)))
+            return outs
         if isinstance(node.op, ast.Mult) and isinstance(node.left, ast.List) and len(node.left.elts) == 1:
             # [x] * n : fresh list of max(n, 0) items all equal to x
             for s, k, vs in self.eval_many([node.left.elts[0], node.right], st):
